@@ -90,10 +90,16 @@ SIMPLE = {
 }
 
 
-def judge_point(st, fn, call, tab, arg, kind, case, quick_nt=True):
+def judge_point(st, fn, call, tab, arg, kind, case, quick_nt=True, ns=None):
     """evaluate one argument against the table oracle with the range rule"""
     st.ev()
     got, err = call(arg)
+    if ns is not None:
+        # the same call without an error slot: the value must not depend on how the caller asked for the error
+        g2 = ns(arg)
+        if g2 != got and not (g2 != g2 and got != got):
+            st.violation("noslot-differs:" + fn, dict(case, arg=arg, kind=kind), got, g2)
+            return
     x = None
     if arg > 0 or (arg == 0 and fn.startswith("ComptonProfile")) or (fn == "FF_Rayl" and arg >= 0):
         try:
@@ -199,7 +205,41 @@ def work(item):
                 st.note("nonmonotone_tables", 1)
             rng = random.Random(mix(seed, fn, z))
             for arg, kind in table_args(tab, rng, frac):
-                judge_point(st, fn, lambda a: L.call(fn, z, a), tab, arg, kind, case)
+                judge_point(st, fn, lambda a: L.call(fn, z, a), tab, arg, kind, case, ns=lambda a: L.noslot(fn, z, a))
+    elif fn == "@interleave":
+        # the same tables, visited in an order no per-table sweep produces: consecutive calls share the argument but not the function
+        # or the element (or share the element but not the function), so that anything remembered from one call is wrong for the next
+        tabs = {}
+        for f, (fname, fwd, inv, yexp) in SIMPLE.items():
+            data = df.spline3(fname, has_nz=(fname == "CS_Energy.dat"))
+            for z in zs:
+                if z in data and 1 <= z <= zmax:
+                    tabs[(f, z)] = Table(*data[z], fwd, inv, yexp)
+        cp = df.compton_profiles()
+        for z in zs:
+            if z in cp and 1 <= z <= zmax:
+                tabs[("ComptonProfile", z)] = Table(cp[z]["pz"], cp[z]["total"], cp[z]["total2"], f_lnp1, i_lnp1, True)
+        keys = sorted(tabs)
+        rng = random.Random(mix(seed, "interleave", zs[0] if zs else 0))
+        rounds = int(frac)
+        for r in range(rounds if keys else 0):
+            mode = r % 3
+            if mode == 0:      # one argument, many (function, element) pairs
+                arg = 10.0 ** rng.uniform(-1.0, 2.9) if rng.random() < 0.7 else rng.choice((0.1, 0.5, 0.999, 1.0, 1.001, 5.0, 99.0, 100.0, 101.0))
+                seq = [(k, arg) for k in rng.sample(keys, min(len(keys), 8))]
+            elif mode == 1:    # one element, all functions, arguments from a short list so that repeats occur
+                z = rng.choice(zs)
+                pool = [10.0 ** rng.uniform(-1.0, 2.9) for _ in range(3)]
+                seq = [(k, rng.choice(pool)) for k in keys if k[1] == z]
+                rng.shuffle(seq)
+            else:              # one function, alternating elements at the same argument, then a second argument
+                f = rng.choice(sorted(SIMPLE))
+                zz = [k for k in keys if k[0] == f]
+                a1, a2 = 10.0 ** rng.uniform(-1.0, 2.9), 10.0 ** rng.uniform(-1.0, 2.9)
+                seq = [(k, a) for a in (a1, a2, a1) for k in rng.sample(zz, min(len(zz), 4))]
+            for (f, z), arg in seq:
+                judge_point(st, f, lambda a: L.call(f, z, a), tabs[(f, z)], arg, "interleaved", dict(config=config, fn=f, Z=z, order="interleaved", round=r, seq=[[k[0], k[1], a] for k, a in seq]),
+                            ns=(lambda a: L.noslot(f, z, a)) if rng.random() < 0.3 else None)
     elif fn == "ComptonProfile":
         data = df.compton_profiles()
         nshell_macro = h.val.get("SHELLNUM_C", 29)
@@ -218,13 +258,13 @@ def work(item):
             rng = random.Random(mix(seed, fn, z))
             tab = Table(d["pz"], d["total"], d["total2"], f_lnp1, i_lnp1, True)
             for arg, kind in table_args(tab, rng, frac):
-                judge_point(st, "ComptonProfile", lambda a: L.call("ComptonProfile", z, a), tab, arg, kind, case)
+                judge_point(st, "ComptonProfile", lambda a: L.call("ComptonProfile", z, a), tab, arg, kind, case, ns=lambda a: L.noslot("ComptonProfile", z, a))
             for s in range(-2, max(len(d["occ"]), nshell_macro) + 3):
                 c2 = dict(config=config, fn="ComptonProfile_Partial", Z=z, shell=s)
                 if 0 <= s < len(d["occ"]) and d["occ"][s] > 0.0:
                     tabp = Table(d["pz"], d["partial"][s], d["partial2"][s], f_lnp1, i_lnp1, True)
                     for arg, kind in table_args(tabp, rng, frac):
-                        judge_point(st, "ComptonProfile_Partial", lambda a: L.call("ComptonProfile_Partial", z, s, a), tabp, arg, kind, c2)
+                        judge_point(st, "ComptonProfile_Partial", lambda a: L.call("ComptonProfile_Partial", z, s, a), tabp, arg, kind, c2, ns=lambda a: L.noslot("ComptonProfile_Partial", z, s, a))
                 else:
                     st.ev()
                     st.cls("unoccupied_shell")
@@ -288,7 +328,7 @@ def work(item):
                         else:
                             st.sample("kissel_extension", dict(case, arg=arg, expected=exp, got=got), cap=1)
                         continue
-                    judge_point(st, fn, lambda a: L.call(fn, z, s, a), tab, arg, kind, case)
+                    judge_point(st, fn, lambda a: L.call(fn, z, s, a), tab, arg, kind, case, ns=lambda a: L.noslot(fn, z, s, a))
     return st
 
 
@@ -306,6 +346,11 @@ def make_items(ctx, builds):
             step = 8
             for i in range(step):
                 items.append((cfg, builds[cfg]["lib"], builds[cfg]["src"], fn, zs_all[i::step], ctx.seed, frac))
+    zs = list(range(1, 108))
+    random.Random(mix(ctx.seed, "interleave-z")).shuffle(zs)
+    rounds = 1500 if ctx.tier == "quick" else 12000
+    for i in range(0, len(zs), 9):
+        items.append(("A", builds["A"]["lib"], builds["A"]["src"], "@interleave", sorted(zs[i:i + 9]), ctx.seed, rounds))
     return items
 
 
@@ -313,7 +358,8 @@ def run(ctx):
     import c01
     ctx.rule = ("every knot interval of every table of CS_Photo/Rayl/Compt/Energy, FF_Rayl, SF_Compt, Fi, Fii, ComptonProfile(+_Partial per "
                 "occupied shell) and CSb_Photo_Partial (configuration B; in A every call must fail): left knot, midpoint, one seeded "
-                "fraction; both ends x(1-+{1e-12,1e-9,1e-6,1e-3}); 0, negative, DBL_MIN, 1e300; Kissel edge/extension region. "
+                "fraction; both ends x(1-+{1e-12,1e-9,1e-6,1e-3}); 0, negative, DBL_MIN, 1e300; Kissel edge/extension region; every call repeated without an error slot (same value required); interleaved sequences in which "
+                "consecutive calls share the argument but not the function/element. "
                 "non-trivial = in-range evaluation in an interval with non-zero second derivative or the first/last interval, plus "
                 "every Kissel-extension point (distinct by construction: one per (function, Z, shell, interval, point kind))")
     ctx.exhaustive = False
@@ -332,6 +378,22 @@ def replay(ctx, rec):
     cfg = c.get("config", "A")
     fn = c["fn"]
     base = "ComptonProfile" if fn.startswith("ComptonProfile") else fn
+    if c.get("order") == "interleaved":
+        # the recorded sequence, call by call, against the same table oracle
+        st = Stats()
+        h = xrl.Headers(builds[cfg]["src"]); df = xrl.DataFiles(builds[cfg]["src"]); L = xrl.Lib(builds[cfg]["lib"], h)
+        cp = df.compton_profiles()
+        for f, z, a in c["seq"]:
+            if f == "ComptonProfile":
+                tab = Table(cp[z]["pz"], cp[z]["total"], cp[z]["total2"], f_lnp1, i_lnp1, True)
+            else:
+                fname, fwd, inv, yexp = SIMPLE[f]
+                tab = Table(*df.spline3(fname, has_nz=(fname == "CS_Energy.dat"))[z], fwd, inv, yexp)
+            judge_point(st, f, lambda x: L.call(f, z, x), tab, a, "interleaved", dict(config=cfg, fn=f, Z=z), ns=lambda x: L.noslot(f, z, x))
+        bad = [v for v in st.violations if v["sig"] == rec["signature"]]
+        for v in bad[:3]:
+            print("replay:", v)
+        return not bad
     st = work((cfg, builds[cfg]["lib"], builds[cfg]["src"], base, [c["Z"]], rec.get("seed", ctx.seed), 1.0))
     bad = [v for v in st.violations if v["sig"] == rec["signature"]]
     for v in bad[:3]:
